@@ -423,29 +423,5 @@ Section Fused.
     mvmul K (unitary K n gs) v = execute K n gs v.
   Proof. intros Hw Hs Hv. rewrite unitary_eq by assumption. symmetry. now apply (execute_eq K HK). Qed.
 
-  Lemma flat_map_QGate (gs : list (gate (T:=T))) :
-    flat_map (fun it : qitem => match it with QGate g => [g] | QFused _ _ => [] end) (map (fun g => QGate g) gs) = gs.
-  Proof. induction gs as [|g gs IH]; simpl; [reflexivity|]. now rewrite IH. Qed.
-
-  Theorem unitary_queue_elementary n gs v : Forall (gate_wf n) gs -> Forall gate_shape_ok gs -> length v = 2 ^ n ->
-    mvmul K (unitary_queue K n (map (fun g => QGate g) gs)) v = execute_queue K n (map (fun g => QGate g) gs) v.
-  Proof.
-    intros Hw Hs Hv. unfold unitary_queue. rewrite flat_map_QGate. fold (unitary K n gs).
-    rewrite unitary_run_eq by assumption. unfold execute_queue, execute.
-    generalize v. clear. induction gs as [|g gs IH]; intros v; simpl; [reflexivity|]. apply IH.
-  Qed.
 End Fused.
-
-(* counterexample: one qubit, the queue [FusedGate(0){X, Y}] (= Circuit(1) + X(0) + Y(0), fused), state |0>:
-   execution gives Y X |0> = -i |0>, Circuit.unitary() is the identity *)
-From QV Require Import Base.Zi.
-From Coq Require Import ZArith.
-Lemma unitary_queue_counterexample :
-  exists n (q : list (qitem (T:=Zi))) (v : vec Zi), length v = 2 ^ n /\
-    mvmul Ziops (unitary_queue Ziops n q) v <> execute_queue Ziops n q v.
-Proof.
-  exists 1, [QFused [0] [(false, [], [0], [[(0, 0); (1, 0)]; [(1, 0); (0, 0)]]%Z);
-                         (false, [], [0], [[(0, 0); (0, -1)]; [(0, 1); (0, 0)]]%Z)]], [(1, 0); (0, 0)]%Z.
-  split; [reflexivity|]. vm_compute. discriminate.
-Qed.
 
